@@ -1,3 +1,57 @@
-import NxModel.Bytes
-/-! driver stub for C17 (replaced when the property's model lands) -/
-def main : IO Unit := IO.println "stub C17"
+import NxModel.Nex.Backend
+import NxModel.DriverUtil
+/-! line-protocol driver for the back-end login model (see harness/corr_C17.py)
+  plan <nexVersion> <clientVersion> <kd> <keySize> <pidSize> <authHost> <authPort> <username> <passwordhex|none> <authInfo 0|1>
+       (resp <result> <pid> <tickethex> <sourceKeyText|~> <addr> <port> <PID> <CID> <sid> | fail <code>)
+       (resp <result> <tickethex> | fail <code>)
+  -> <calls joined by |> ; <none | source hex | derived kd pid hex> ; <connect host port sid pid cid sessionkeyhex internalhex | rmc code | exc Name>
+-/
+open Nx Nx.Backend
+
+def showCall : Call → String
+  | .login u => s!"login {u}"
+  | .loginEx u => s!"loginEx {u}"
+  | .validateAndRequestTicket u => s!"validateAndRequestTicket {u}"
+  | .validateAndRequestTicketWithCustomData u => s!"validateAndRequestTicketWithCustomData {u}"
+  | .validateAndRequestTicketWithParam u d n c => s!"validateAndRequestTicketWithParam {u} {if d then 1 else 0} {n} {c}"
+  | .requestTicket s t => s!"requestTicket {s} {t}"
+
+def showKey : KeyUse → String
+  | .none => "none"
+  | .source k => "source " ++ hexOut k
+  | .derived kd pid k => s!"derived {kd} {pid} " ++ hexOut k
+
+def showOut : Except Fail Connect → String
+  | .ok c => s!"connect {c.host} {c.port} {c.streamId} {c.pid} {c.cid} {hexOut c.ticket.sessionKey} {hexOut c.ticket.internal}"
+  | .error (.rmc code) => s!"rmc {code}"
+  | .error (.exc e) => "exc " ++ e.name
+
+def parseFirst : List String → Option (Reply AuthResp × List String)
+  | "fail" :: code :: r => code.toNat?.map fun c => (.fail c, r)
+  | "resp" :: res :: pid :: t :: sk :: addr :: port :: spid :: cid :: sid :: r => do
+    let res ← res.toNat?; let pid ← pid.toNat?; let t ← fromHex t
+    let port ← port.toNat?; let spid ← spid.toNat?; let cid ← cid.toNat?; let sid ← sid.toNat?
+    pure (.resp ⟨res, pid, t, if sk = "~" then "" else sk, ⟨addr, port, spid, cid, sid⟩⟩, r)
+  | _ => none
+
+def parseSecond : List String → Option (Reply TicketResp)
+  | ["fail", code] => code.toNat?.map .fail
+  | ["resp", res, t] => do
+    let res ← res.toNat?; let t ← fromHex t
+    pure (.resp ⟨res, t⟩)
+  | _ => none
+
+def step (line : String) : String :=
+  match (line.splitOn " ").filter (· ≠ "") with
+  | "plan" :: nv :: cv :: kd :: ks :: ps :: ah :: ap :: user :: pw :: ai :: rest =>
+    match nv.toNat?, cv.toNat?, kd.toNat?, ks.toNat?, ps.toNat?, ap.toNat?, parseFirst rest with
+    | some nv, some cv, some kd, some ks, some ps, some ap, some (first, rest) =>
+      match parseSecond rest, (if pw = "none" then some none else (fromHex pw).map some) with
+      | some second, some pw =>
+        let p := plan ⟨nv, cv, kd, ks, ps, ah, ap⟩ ⟨user, pw, ai = "1"⟩ ⟨first, second⟩
+        "|".intercalate (p.calls.map showCall) ++ " ; " ++ showKey p.key ++ " ; " ++ showOut p.outcome
+      | _, _ => "bad-op"
+    | _, _, _, _, _, _, _ => "bad-op"
+  | _ => "bad-op"
+
+def main : IO Unit := runLines step
